@@ -9,8 +9,12 @@ from pyvc.contracts import load_contracts
 from pyvc.verify import verify_unit
 load_contracts(os.path.join(HERE, 'contracts'))
 verbose = '-v' in sys.argv
+from pyvc.parallel import run_units
+import time
 for q in [a for a in sys.argv[1:] if not a.startswith('-')]:
-    r = verify_unit(q)
+    t0 = time.time()
+    r = run_units([q], 16)[q]
+    r.wall_s = time.time() - t0
     names = collections.OrderedDict()
     for o in r.obligations:
         d = names.setdefault(o.name, {'n': 0, 'bad': collections.OrderedDict()})
